@@ -63,6 +63,22 @@ impl HtmlWriter {
     }
 }
 
+impl HtmlWriter {
+    /// Appends `buf` with `&`, `<` and `>` escaped: what is written through this writer
+    /// (diagnostic messages, quoted source lines, source names) is text, not HTML.
+    fn write_escaped(&mut self, buf: &[u8]) -> usize {
+        for &byte in buf {
+            match byte {
+                b'&' => self.buffer.extend_from_slice(b"&amp;"),
+                b'<' => self.buffer.extend_from_slice(b"&lt;"),
+                b'>' => self.buffer.extend_from_slice(b"&gt;"),
+                _ => self.buffer.push(byte),
+            }
+        }
+        buf.len()
+    }
+}
+
 impl BufferedWriter for HtmlWriter {
     fn to_string(&self) -> String {
         String::from_utf8_lossy(&self.buffer).into()
@@ -75,26 +91,26 @@ impl std::io::Write for HtmlWriter {
             if color.fg() == Some(&Color::Red) {
                 self.buffer
                     .write_all("<span class=\"numbat-diagnostic-red\">".as_bytes())?;
-                let size = self.buffer.write(buf)?;
+                let size = self.write_escaped(buf);
                 self.buffer.write_all("</span>".as_bytes())?;
                 Ok(size)
             } else if color.fg() == Some(&Color::Blue) {
                 self.buffer
                     .write_all("<span class=\"numbat-diagnostic-blue\">".as_bytes())?;
-                let size = self.buffer.write(buf)?;
+                let size = self.write_escaped(buf);
                 self.buffer.write_all("</span>".as_bytes())?;
                 Ok(size)
             } else if color.bold() {
                 self.buffer
                     .write_all("<span class=\"numbat-diagnostic-bold\">".as_bytes())?;
-                let size = self.buffer.write(buf)?;
+                let size = self.write_escaped(buf);
                 self.buffer.write_all("</span>".as_bytes())?;
                 Ok(size)
             } else {
-                self.buffer.write(buf)
+                Ok(self.write_escaped(buf))
             }
         } else {
-            self.buffer.write(buf)
+            Ok(self.write_escaped(buf))
         }
     }
 
